@@ -49,7 +49,16 @@ inductive FVal where
   | on                               -- a constant flag was present
   deriving DecidableEq, Repr
 
+/-- what face's parser needs of the outside world: `int()`, reading a flagfile, `abspath` -/
+structure PEnv where
+  parseInt : String → Option Int
+  flagfile : String → Except (Bool × String) (List (Except String (List String)))
+  abspath : String → String
+
 variable {T S R : Type}
+
+/-- the part of the externals the parser sees (not the spec parsers, not the loaders, not glom) -/
+def Ext.penv (X : Ext T S R) : PEnv := ⟨X.parseInt, X.flagfile, X.abspath⟩
 
 /-- `normalize_flag_name` -/
 def normalizeFlagName (arg : String) : String :=
@@ -58,11 +67,18 @@ def normalizeFlagName (arg : String) : String :=
   let rest := if cs.length - rest.length > 1 then rest.map Char.toLower else rest
   String.ofList (rest.map (fun c => if c == '-' then '_' else c))
 
+/-- split at the first occurrence of `sep`: what precedes it and — when it occurs — what follows -/
+def splitFirst {α : Type} [BEq α] (sep : α) : List α → List α × Option (List α)
+  | [] => ([], none)
+  | x :: xs =>
+    if x == sep then ([], some xs)
+    else ((x :: (splitFirst sep xs).1), (splitFirst sep xs).2)
+
 /-- `arg, arg_text = arg.split('=', maxsplit=1)` (no `=`: the argument itself, no text) -/
 def splitEq (arg : String) : String × Option String :=
-  match arg.toList.span (· != '=') with
-  | (_, []) => (arg, none)
-  | (a, _ :: v) => (String.ofList a, some (String.ofList v))
+  match splitFirst '=' arg.toList with
+  | (_, none) => (arg, none)
+  | (a, some v) => (String.ofList a, some (String.ofList v))
 
 def Table.lookup (tbl : Table) (arg : String) : Option FlagSpec :=
   match tbl.keys.find? (·.1 == normalizeFlagName arg) with
@@ -77,26 +93,27 @@ inductive PFail where
   deriving DecidableEq, Repr
 
 /-- `parse_as(arg_text)` of a flag that takes an argument -/
-def convArg (X : Ext T S R) (f : FlagSpec) (text : String) : Except PFail FVal :=
+def convArg (E : PEnv) (f : FlagSpec) (text : String) : Except PFail FVal :=
   if f.kind == "int" then
-    match X.parseInt text with
+    match E.parseInt text with
     | some n => .ok (.int n)
     | none => .error (.cli .invalidFlagArg)
   else .ok (.str text)
 
-/-- `_parse_single_flag(cmd_flag_map, args)` → (flag, value, remaining args) -/
-def parseSingleFlag (tbl : Table) (X : Ext T S R) (arg : String) (rest : List String) :
-    Except PFail (FlagSpec × FVal × List String) :=
+/-- `_parse_single_flag(cmd_flag_map, args)` → (flag, value, `advance == 2`): the remaining
+    arguments are `args[advance:]` -/
+def parseSingleFlag (tbl : Table) (E : PEnv) (arg : String) (rest : List String) :
+    Except PFail (FlagSpec × FVal × Bool) :=
   let (name, text) := splitEq arg
   match tbl.lookup name with
   | none => .error (.cli .unknownFlag)
   | some f =>
     if f.kind == "const" then
-      if truthy text then .error (.cli .invalidFlagArg) else .ok (f, .on, rest)
+      if truthy text then .error (.cli .invalidFlagArg) else .ok (f, .on, false)
     else
       match text, rest with
-      | some t, _ => (convArg X f t).map (fun v => (f, v, rest))
-      | none, v :: rest' => (convArg X f v).map (fun v' => (f, v', rest'))
+      | some t, _ => (convArg E f t).map (fun v => (f, v, false))
+      | none, v :: _ => (convArg E f v).map (fun v' => (f, v', true))
       | none, [] => .error (.cli .missingFlagArg)
 
 /-- the flags read so far: name → value, in order, repetitions kept (face's OrderedMultiDict) -/
@@ -108,72 +125,82 @@ abbrev FFMap := List (String × FlagMap)
 mutual
 /-- `_parse_flagfile(cmd_flag_map, path, res_map)`.  `fuel` bounds nesting and lines together (a
     model bound; Python's is the recursion limit). -/
-def parseFlagfile (tbl : Table) (X : Ext T S R) : Nat → String → FFMap → Except PFail FFMap
+def parseFlagfile (tbl : Table) (E : PEnv) : Nat → String → FFMap → Except PFail FFMap
   | 0, _, _ => .error (.exc "RecursionError")
   | fuel + 1, path, res =>
-    match X.flagfile path with
-    | .error _ => .error (.cli .flagfileUnreadable)
+    match E.flagfile path with
+    -- `except (UnicodeError, EnvironmentError) as ee: raise ArgumentParseError(…)`; anything else escapes
+    | .error (caught, c) => .error (if caught then .cli .flagfileUnreadable else .exc c)
     | .ok lines =>
-      let key := X.abspath path
+      let key := E.abspath path
       if res.any (·.1 == key) then .ok res          -- `if path in res_map: return res_map`
       else
         -- `ret[path] = cur_file_res = OMD()`: the entry is created first, filled line by line
-        flagfileLines tbl X fuel key lines [] (res ++ [(key, [])])
+        flagfileLines tbl E fuel key lines [] (res ++ [(key, [])])
 /-- `for lineno, line in enumerate(lines, 1): …` of `_parse_flagfile` -/
-def flagfileLines (tbl : Table) (X : Ext T S R) :
+def flagfileLines (tbl : Table) (E : PEnv) :
     Nat → String → List (Except String (List String)) → FlagMap → FFMap → Except PFail FFMap
   | 0, _, _, _, _ => .error (.exc "RecursionError")
   | _ + 1, key, [], cur, res => .ok (res.map (fun e => if e.1 == key then (key, cur) else e))
   | fuel + 1, key, line :: more, cur, res =>
     match line with
     | .error c => .error (.exc c)                   -- `shlex.split` raised: no FaceException
-    | .ok [] => flagfileLines tbl X fuel key more cur res      -- comment or empty line
+    | .ok [] => flagfileLines tbl E fuel key more cur res      -- comment or empty line
     | .ok (a :: as) =>
-      match parseSingleFlag tbl X a as with
+      match parseSingleFlag tbl E a as with
       | .error e => .error e
-      | .ok (f, v, left) =>
-        if !left.isEmpty then .error (.cli .flagfileExtraArgs)
+      | .ok (f, v, adv) =>
+        -- `if leftover_args: raise ArgumentParseError('excessive flags or arguments …')`
+        if !(if adv then as.drop 1 else as).isEmpty then .error (.cli .flagfileExtraArgs)
         else
           let cur := cur ++ [(f.name, v)]
           if f.name == tbl.flagfile && tbl.flagfile != "" then
             match v with
             | .str p =>
-              match parseFlagfile tbl X fuel p res with
+              match parseFlagfile tbl E fuel p res with
               | .error e => .error e
-              | .ok res' => flagfileLines tbl X fuel key more cur res'
-            | _ => flagfileLines tbl X fuel key more cur res
-          else flagfileLines tbl X fuel key more cur res
+              | .ok res' => flagfileLines tbl E fuel key more cur res'
+            | _ => flagfileLines tbl E fuel key more cur res
+          else flagfileLines tbl E fuel key more cur res
 end
 
 /-- the fuel handed to `parseFlagfile` for one `--flagfile` on the command line -/
 def flagfileFuel : Nat := 4096
 
-/-- `_parse_flags`: (flag map, flagfile map, seen flagfile paths) while arguments look like flags -/
-def parseFlags (tbl : Table) (X : Ext T S R) :
-    Nat → List String → FlagMap → FFMap → List String →
-      Except PFail (FlagMap × List String)
-  | 0, args, fm, _, _ => .ok (fm, args)
-  | fuel + 1, args, fm, ff, seen =>
-    match args with
-    | [] => .ok (fm, [])
-    | arg :: rest =>
-      -- `if not arg or arg[0] != '-' or arg == '-' or arg == '--': break`
-      if arg.isEmpty || arg.front != '-' || arg == "-" || arg == "--" then .ok (fm, args)
-      else
-        match parseSingleFlag tbl X arg rest with
+/-- one `--flagfile PATH` on the command line: the files it brings in that were not merged yet -/
+def mergeFlagfile (tbl : Table) (E : PEnv) (f : FlagSpec) (v : FVal) (fm : FlagMap) (ff : FFMap)
+    (seen : List String) : Except PFail (FlagMap × FFMap × List String) :=
+  if f.name == tbl.flagfile && tbl.flagfile != "" then
+    match v with
+    | .str p =>
+      match parseFlagfile tbl E flagfileFuel p ff with
+      | .error e => .error e
+      | .ok ff' =>
+        let fresh := ff'.filter (fun e => !seen.contains e.1)
+        .ok (fm ++ fresh.flatMap (·.2), ff', seen ++ fresh.map (·.1))
+    | _ => .ok (fm, ff, seen)
+  else .ok (fm, ff, seen)
+
+/-- `_parse_flags`: flags are read while the next argument looks like one; → (flag map, the
+    positional arguments).  `ff` / `seen`: the flagfiles visited / merged so far. -/
+def parseFlags (tbl : Table) (E : PEnv) :
+    List String → FlagMap → FFMap → List String → Except PFail (FlagMap × List String)
+  | [], fm, _, _ => .ok (fm, [])
+  | arg :: rest, fm, ff, seen =>
+    -- `if not arg or arg[0] != '-' or arg == '-' or arg == '--': break`
+    if arg.isEmpty || arg.front != '-' || arg == "-" || arg == "--" then .ok (fm, arg :: rest)
+    else
+      match parseSingleFlag tbl E arg rest with
+      | .error e => .error e
+      | .ok (f, v, adv) =>
+        match mergeFlagfile tbl E f v (fm ++ [(f.name, v)]) ff seen with
         | .error e => .error e
-        | .ok (f, v, rest') =>
-          let fm := fm ++ [(f.name, v)]
-          if f.name == tbl.flagfile && tbl.flagfile != "" then
-            match v with
-            | .str p =>
-              match parseFlagfile tbl X flagfileFuel p ff with
-              | .error e => .error e
-              | .ok ff' =>
-                let fresh := ff'.filter (fun e => !seen.contains e.1)
-                parseFlags tbl X fuel rest' (fm ++ fresh.flatMap (·.2)) ff' (seen ++ fresh.map (·.1))
-            | _ => parseFlags tbl X fuel rest' fm ff seen
-          else parseFlags tbl X fuel rest' fm ff seen
+        | .ok (fm', ff', seen') =>
+          if adv then            -- `args[2:]`: the flag took the next argument as its value
+            match rest with
+            | _ :: rest' => parseFlags tbl E rest' fm' ff' seen'
+            | [] => .ok (fm', [])
+          else parseFlags tbl E rest fm' ff' seen'
 
 /-- `_resolve_flags`: a flag whose `multi` is 'error' must not have two values -/
 def duplicated (tbl : Table) (fm : FlagMap) : Bool :=
@@ -199,10 +226,7 @@ def onVal (fm : FlagMap) (name : String) : Bool :=
   | _ => false
 
 /-- `split(posargs, '--', 1)` when `'--' in posargs` -/
-def splitDashDash (pos : List String) : List String × Option (List String) :=
-  match pos.span (· != "--") with
-  | (a, []) => (a, none)
-  | (a, _ :: b) => (a, some b)
+def splitDashDash (pos : List String) : List String × Option (List String) := splitFirst "--" pos
 
 /-- positional-argument validation (`PosArgSpec.parse`, both specs) -/
 def checkPosargs (tbl : Table) (pos : List String) : Except CliErr (List String) :=
@@ -231,11 +255,11 @@ def argvOf (fm : FlagMap) (pos : List String) : Argv :=
     inspect := onVal fm "inspect" }
 
 /-- `Command.run(argv)` up to the dispatch: `Parser.parse`, the help flag -/
-def parseArgv (tbl : Table) (X : Ext T S R) (argv : List String) : ParseRes :=
+def parseArgv (tbl : Table) (E : PEnv) (argv : List String) : ParseRes :=
   match argv with
   | [] => .fail (.cli .emptyArgv)
   | _ :: args =>
-    match parseFlags tbl X (args.length + 1) args [] [] [] with
+    match parseFlags tbl E args [] [] [] with
     | .error e => .fail e                      -- `cpr.flags` is still None: no help
     | .ok (fm, pos) =>
       let helpGiven := tbl.help != "" && fm.any (·.1 == tbl.help)
@@ -248,7 +272,7 @@ def parseArgv (tbl : Table) (X : Ext T S R) (argv : List String) : ParseRes :=
 
 /-- `main(argv)` -/
 def cliMainArgv (tbl : Table) (F : Facts) (X : Ext T S R) (argv : List String) (w : World) : Outcome :=
-  match parseArgv tbl X argv with
+  match parseArgv tbl X.penv argv with
   | .ok a => cliMain F X a w
   | .help => .exit 0 X.helpText
   | .fail (.cli e) => .cli e
